@@ -288,6 +288,9 @@ def run_case(case):
                 # not C20: a client that also offers TLS >= 1.0 sends extended_master_secret; a server that
                 # then negotiates SSLv3 accepts it and both ends die in calc_key (AssertionError)
                 cs.useExtendedMasterSecret = False
+        if case.get('etm') is False:        # exercise MAC-then-encrypt record sizes as well
+            cs.useEncryptThenMAC = False
+        n_app = int(case.get('n', N_APP))
         ckw, skw, kind = {'settings': cs}, {'settings': ss}, 'cert'
         auth = m['auth'] if m else case.get('auth', 'RSA')
         kx = m['kx'] if m else None
@@ -317,23 +320,29 @@ def run_case(case):
         pair.client._sendMsg = send
         c, s = pair.handshake(client_kw=ckw, server_kw=skw, client_kind=kind)
         out['outcome'] = [list(map(str, loop.classify(c))), list(map(str, loop.classify(s)))]
+        try:
+            out['wire'] = wire_view(records(pair.csock.sent_log), records(pair.ssock.sent_log))
+        except Exception as e:  # noqa
+            out['wire'] = None
+            out['wire_error'] = repr(e)
         if c[0] != 'ok' or s[0] != 'ok':
             return out
+        if out['wire'] is None:
+            raise RuntimeError('cannot parse the handshake records: ' + out['wire_error'])
         out['ok'] = True
-        out['wire'] = wire_view(records(pair.csock.sent_log), records(pair.ssock.sent_log))
         out['cli'] = side_view(pair.client)
         out['srv'] = side_view(pair.server)
         out['fact'] = sorted(set(rec.fact))
         out['prfs'] = sorted(set(rec.prfs))
         out['hkdf'] = sorted(set(rec.hkdf))
         nc, ns = len(records(pair.csock.sent_log)), len(records(pair.ssock.sent_log))
-        data = bytes((i * 7 + sid) & 0xff for i in range(N_APP))
+        data = bytes((i * 7 + sid) & 0xff for i in range(n_app))
         w1 = pair.transfer(pair.client, pair.server, data)
         w2 = pair.transfer(pair.server, pair.client, data)
         out['app_ok'] = bool(w1[2] == data and w2[2] == data)
         out['c2s'] = app_lens(pair.csock.sent_log, nc)
         out['s2c'] = app_lens(pair.ssock.sent_log, ns)
-        out['n'] = N_APP
+        out['n'] = n_app
     except Exception as e:  # noqa
         import traceback
         out['error'] = '%s: %s' % (type(e).__name__, e)
